@@ -190,7 +190,7 @@ CLAIMED["C12"] = (
 
 # Clauses added after the seeded-defect rounds and the exploratory variants (DESIGN.md sections 8.1-8.3).
 EXTRA = {
- "C01": " Also decides that only Slot.Set writes the handler table and that every operand a reactor handler reads (buffer, destination, mode) is armed together with the callback before any call that can park the operation.",
+ "C01": " Also decides that only Slot.Set writes the handler table and that every operand a reactor handler reads (buffer, destination, mode) is armed together with the callback before any call that can park the operation; that every constructor stores the new object into its reactors' back-pointers; and, per path and per call site of a shared cancel helper, that a parked operation is completed at most once, after testing and removing the interest of its own direction.",
  "C03": " Also decides that a posted handler is counted before the mutex that publishes it is released, and that the poller's SetRead/DelRead change the read interest bit and SetWrite/DelWrite the write interest bit (seen through shared helpers).",
  "C04": " Also decides that the read interest is registered only after the timerfd was armed, that Cancel flags the repeating closure in every live state, that ScheduleOnce clears the flag only on paths that arm, and that the immediate callback runs only on a ready timer; that Cancel records stateReady exactly on the success edge of Unset and Close records stateClosed on every path of an open timer.",
  "C05": " Also decides that the batch loop covers index 0..len-1 in steps of one.",
